@@ -1,4 +1,7 @@
 #!/bin/bash
-# tools/wave.sh <prop> [more check ids]: run every mutant of mutants/<prop> (4 at a time)
+# tools/wave.sh <prop> [more check ids]: run every mutant of mutants/<prop> (PAR at a time);
+# results are appended to /tmp/wave-<prop>.log as they finish and printed at the end.
 P=$1; shift; IDS="${*:-$P}"
-ls /verif/mutants/$P/*.diff | xargs -P ${PAR:-4} -I{} /verif/tools/mutant.sh {} $IDS 2>&1 | grep -E "^(DETECTED|MISSED|PATCH)"
+LOG=/tmp/wave-$P.log; : > $LOG
+ls /verif/mutants/$P/*.diff | xargs -P ${PAR:-4} -I{} sh -c "/verif/tools/mutant.sh {} $IDS 2>&1 | grep -E '^(DETECTED|MISSED|PATCH)' >> $LOG"
+cat $LOG
